@@ -12,7 +12,7 @@ Model of the Miner-rule code of pyLife (property C11):
 A load collective / load histogram is seen through its two accessors `amplitude` and `cycles`
 (`load_histogram.py`, `load_collective.py`): a list of classes `(amplitude, cycles)`.
 
-The Miner functions are modelled in their REPAIRED form (tools/fixes/C11-gassner-max-occupied.diff):
+The Miner functions are modelled in their REPAIRED form (/repo commit 110dd2d):
 `gassner_cycles` and `MinerHaibach.lifetime_multiple` take the largest OCCUPIED amplitude
 (`amplitude[cycles > 0].max()`, as `solidity.haibach` always did), `gassner_cycles` reads the cycle number of
 that amplitude off the `k_1` line (`self.miner_elementary().cycles`), `MinerElementary.gassner` sets
@@ -23,7 +23,7 @@ Curves given for a native failure probability other than 50 % and with scatter (
 `WoehlerCurve.cycles` and therefore `gassner_cycles` always evaluate the curve transformed to 50 %
 (`transform_to_failure_probability(0.5)`, modelled in `Model/Woehler.lean` - imported, not re-modelled).  The
 section "native curves" at the end lifts every function to a `Woehler.Curve` through `at50`.  Second repair
-(tools/fixes/C11-haibach-knee-at-50pct.diff): `MinerHaibach.lifetime_multiple` splits the classes at the knee of the
+(/repo commit 54050c5): `MinerHaibach.lifetime_multiple` splits the classes at the knee of the
 50 % curve (before: at the native `SD`, inconsistent with the curve the damage is computed on).
 
 Generic in the carrier (see `Model/Num.lean`): `Float` in the driver, `ℝ` in the proofs.  No Mathlib.
